@@ -1804,6 +1804,10 @@ func (x *Exec) checkCallsites(fr *frame, cc *ssa.CallCommon, args []sval, st *St
 		_ = lbl
 		if x.csCases == nil {
 			x.csCases = map[int][]oblCase{}
+			x.csSeq = map[int]int{}
+		}
+		if _, ok := x.csSeq[c.Line]; !ok {
+			x.csSeq[c.Line] = len(x.obls) // position (in generation order) of the clause's first call site
 		}
 		x.csCases[c.Line] = append(x.csCases[c.Line], oblCase{Guard: reach, Goal: tv.T, Block: x.curBlock, Idx: len(x.cmds)})
 		x.assume(reach, tv.T)
